@@ -89,6 +89,9 @@ TERMINAL = [
     Op("nunique0", lambda d: d[d.columns[0]].nunique(), kind="scalar", family="reduction"),
     Op("vc_last", lambda d: d[d.columns[-1]].value_counts(), kind="series", family="value_counts", unordered=True),
     Op("gb_sum", lambda d: d.groupby(d.columns[-1] if "b" not in list(d.columns) else "b").sum(), family="groupby", unordered=True),
+    # a list-sliced aggregation under a column selection (D96)
+    Op("gb_slice_sel", lambda d: d.groupby("b")[["a", "c"]].sum()[["a"]] if {"a", "b", "c"} <= set(getattr(d, "columns", [])) else d.sum(),
+       family="groupby", unordered=True),
     Op("gb_count", lambda d: d.groupby("b").count() if "b" in list(d.columns) else d.count(), family="groupby", unordered=True),
     Op("gb_agg", lambda d: d.groupby("b").agg({"a": "max"}) if {"a", "b"} <= set(d.columns) else d.max(numeric_only=True), family="groupby", unordered=True),
     Op("index", lambda d: d.index, kind="series", family="index"),
